@@ -46,6 +46,36 @@ def attributed_props(f, fns_meta):
     return fp
 
 
+def callee_closure(unit, prop):
+    """functions of the unit whose CONTRACT a proof of `prop` may use: the functions carrying the property (fn tag or clause tag)
+    and everything they call, transitively, by name (over-approximation: an identifier followed by `(`)"""
+    mp = load_json(os.path.join(VERIF, 'gen', unit + '.map.json'), {'lines': [], 'functions': {}})
+    try:
+        lines = open(os.path.join(VERIF, 'gen', unit + '.rs')).read().split('\n')
+    except OSError:
+        return set()
+    fns = {k: m for k, m in mp['functions'].items() if not m.get('item') and m.get('gen_start_line')}
+    by_name = {}
+    for k, m in fns.items():
+        by_name.setdefault(m.get('gen_name', m['name']), set()).add(k)
+    calls = {}
+    for k, m in fns.items():
+        body = '\n'.join(lines[m['gen_start_line'] - 1:m['gen_end_line']])
+        names = set(re.findall(r'\b([A-Za-z_][A-Za-z0-9_]*)\s*(?:::<[^>]*>)?\s*\(', body))
+        calls[k] = set(x for n in names if n in by_name for x in by_name[n]) - {k}
+    roots = set(k for k, m in fns.items() if prop in m.get('props', []))
+    for e in mp['lines']:
+        if e.get('clause') and prop in e.get('props', []) and e.get('fn') in fns:
+            roots.add(e['fn'])
+    seen, todo = set(roots), list(roots)
+    while todo:
+        k = todo.pop()
+        for c in calls.get(k, ()):
+            if c not in seen:
+                seen.add(c); todo.append(c)
+    return seen
+
+
 def tagged_clauses(unit, prop):
     mp = load_json(os.path.join(VERIF, 'gen', unit + '.map.json'), {'lines': [], 'functions': {}})
     seen, out = set(), []
@@ -82,6 +112,12 @@ def known_match(f, prop, known):
             continue
         return k
     return None
+
+
+def known_match_any(f, known):
+    """the failure is a listed known finding of whatever property (e.g. F8 seen from another property's check)"""
+    base = f['obligation'].split('@')[0]
+    return any(k.get('status', 'known') == 'known' and k['obligation'] == base for k in known.get('findings', []))
 
 
 def slug(s):
@@ -146,6 +182,7 @@ def main():
             undecided.append('%s: %s' % (u, r.reason))
             continue
         clauses, mp = tagged_clauses(u, prop)
+        closure = callee_closure(u, prop)
         lem = lemma_obligations(u, prop)
         failed_names = set()
         for f in r.failures:
@@ -158,6 +195,9 @@ def main():
                 k = known_match(f, prop, known)
                 (knowns if k else violations).append((f, k))
                 failed_names.add('%s/%s/%s' % (u, f['fn'], f['clause']))
+            elif f['fn'] in closure and not known_match_any(f, known):
+                # an obligation of another property fails inside a function whose contract this property's proof uses
+                undecided.append('%s: %s fails its own contract (%s): a function this property is proved through is in doubt' % (u, f['fn'], f['clause']))
         # ledger: every function that verified on the pinned tree must be reported verified now
         led = ledger.get(u)
         if led is None:
